@@ -6,8 +6,12 @@ uint32_t ext_memcmp(char* a, char* b, uint64_t n) { for (uint64_t i = 0; i < n; 
 uint32_t ext_bcmp(char* a, char* b, uint64_t n) { for (uint64_t i = 0; i < n; i++) if (a[i] != b[i]) return 1; return 0; }
 char* ext_memchr(char* s, uint32_t c, uint64_t n) { for (uint64_t i = 0; i < n; i++) if ((unsigned char)s[i] == (unsigned char)c) return s + i; return 0; }
 uint32_t ext_strcmp(char* a, char* b) { uint64_t i = 0; for (;; i++) { unsigned char x = (unsigned char)a[i], y = (unsigned char)b[i]; if (x != y) return x < y ? (uint32_t)-1 : 1u; if (!x) return 0; } }
-static int verif_errno_v[VERIF_MAX_OS_THREADS];
+int verif_errno_v[VERIF_MAX_OS_THREADS];
+#ifdef VERIF_SHARED_ERRNO   /* all model threads are photon threads of ONE vCPU (one OS thread): they share errno */
+char* ext___errno_location(void) { return (char*)&verif_errno_v[0]; }
+#else
 char* ext___errno_location(void) { return (char*)&verif_errno_v[verif_os_tid]; }
+#endif
 char* ext__Znwm(uint64_t n) { char* p = malloc(n); __CPROVER_assume(p != 0); return p; }
 char* ext__Znam(uint64_t n) { char* p = malloc(n); __CPROVER_assume(p != 0); return p; }
 void ext__ZdlPv(char* p) { free(p); }
